@@ -137,8 +137,11 @@ Inductive action :=
 
 Inductive hook :=
 | HCancelOwner (k : key) (c : N)            (* OwnershipCancelData *)
-| HRestoreRemoved (k : key) (o : owner)     (* OwnershipRestoreData registered by bus_service_remove_owner *)
-| HRestoreSwapped (k : key) (o : owner)     (* OwnershipRestoreData registered by bus_service_swap_owner *)
+| HRestoreRemoved (k : key) (o : owner) (before : option N) (slot : nat)
+                                            (* OwnershipRestoreData registered by bus_service_remove_owner: owner, before_owner,
+                                               and where the name sits in the hash (a position fixed by the name alone) *)
+| HRestoreSwapped (k : key) (o : owner) (before : option N)
+                                            (* OwnershipRestoreData registered by bus_service_swap_owner *)
 | HRemoveRule (c : N) (r : N)               (* the explicit bus_matchmaker_remove_rule in bus_driver_handle_add_match *)
 | HCancelPending (p : pend)                 (* CancelPendingReplyData *)
 | HRestorePending (p : pend).               (* CheckPendingReplyData *)
@@ -149,6 +152,32 @@ Definition rules_add (cs : list conn) (c r : N) : list conn :=
   upd_conn cs c (fun x => mkConn (c_id x) (c_active x) (c_owned x) (c_rules x ++ [r])).
 Definition rules_del (cs : list conn) (c r : N) : list conn :=
   upd_conn cs c (fun x => mkConn (c_id x) (c_active x) (c_owned x) (remove_last (N.eqb r) (c_rules x))).
+
+(* position of a name in the table *)
+Fixpoint slot_of (ss : list (key * queue)) (k : key) : nat :=
+  match ss with
+  | [] => O
+  | (k', _) :: r => if key_eqb k k' then O else S (slot_of r k)
+  end.
+
+Fixpoint insert_at {A} (n : nat) (x : A) (l : list A) : list A :=
+  match n, l with
+  | O, _ => x :: l
+  | S m, y :: r => y :: insert_at m x r
+  | S _, [] => [x]
+  end.
+
+(* _dbus_list_insert_before_link at the link of before_owner; at the end if there is none *)
+Fixpoint insert_before (before : option N) (o : owner) (q : queue) : queue :=
+  match q with
+  | [] => [o]
+  | x :: r => match before with
+              | Some c => if o_conn x =? c then o :: x :: r else x :: insert_before before o r
+              | None => x :: insert_before before o r
+              end
+  end.
+
+Definition head_conn (q : queue) : option N := match q with [] => None | x :: _ => Some (o_conn x) end.
 
 Definition do_action (a : action) (b : bus) : option (bus * list hook) :=
   match a with
@@ -208,12 +237,13 @@ Definition do_action (a : action) (b : bus) : option (bus * list hook) :=
       end
   | ARemovePrimary k =>
       match lookup (b_services b) k with
-      | Some (p :: rest) => Some (with_services b (put_queue (b_services b) k rest), [HRestoreRemoved k p])
+      | Some (p :: rest) => Some (with_services b (put_queue (b_services b) k rest),
+                                  [HRestoreRemoved k p (head_conn rest) (slot_of (b_services b) k)])
       | _ => None
       end
   | ASwap k =>
       match lookup (b_services b) k with
-      | Some (p :: n :: rest) => Some (with_services b (set_queue (b_services b) k (n :: p :: rest)), [HRestoreSwapped k p])
+      | Some (p :: n :: rest) => Some (with_services b (set_queue (b_services b) k (n :: p :: rest)), [HRestoreSwapped k p (Some (o_conn n))])
       | _ => None
       end
   | AAddRule c r => Some (with_conns b (rules_add (b_conns b) c r), [HRemoveRule c r])
@@ -229,16 +259,17 @@ Definition do_action (a : action) (b : bus) : option (bus * list hook) :=
       else None
   end.
 
-(* restore_ownership followed by free_ownership_restore_data (bus/services.c).
-   With a non-empty owner list the hook trips over
-   _dbus_assert (d->hash_entry == NULL) (the entry is always preallocated);
-   with an empty one the service is relinked and the owner link re-inserted,
-   but the last reference to the BusOwner is dropped right afterwards. *)
-Definition restore_ownership (k : key) (o : owner) (b : bus) : option bus :=
+(* restore_ownership (bus/services.c): a service that lost its last owner
+   is put back into the hash; a link to the owner that is still in the list
+   (bus_service_swap_owner only moved it) is taken out; the owner goes back in
+   front of before_owner.  The connection's list of owned services was never
+   touched (the hook data holds a reference to the owner). *)
+Definition restore_ownership (k : key) (o : owner) (before : option N) (slot : nat) (moved : bool) (b : bus) : option bus :=
   match lookup (b_services b) k with
-  | Some (_ :: _) => None
-  | Some [] => Some (with_services b (set_queue (b_services b) k [mkOwner (o_conn o) (o_allow o) (o_dnq o) false]))
-  | None => Some (with_services b (b_services b ++ [(k, [mkOwner (o_conn o) (o_allow o) (o_dnq o) false])]))
+  | None => Some (with_services b (insert_at slot (k, [o]) (b_services b)))
+  | Some q =>
+      let q1 := if moved then remove_last (is_conn (o_conn o)) q else q in
+      Some (with_services b (set_queue (b_services b) k (insert_before before o q1)))
   end.
 
 (* what bus_transaction_cancel_and_free does for one hook (cancel function, then free function) *)
@@ -252,8 +283,8 @@ Definition cancel_hook (h : hook) (b : bus) : option bus :=
                 | None => b_services b
                 end in
       Some (mkBus (own_del (b_conns b) c k) ss (b_pending b) (b_next b) (b_maxnames b) (b_maxrules b) (b_maxreplies b))
-  | HRestoreRemoved k o => restore_ownership k o b
-  | HRestoreSwapped k o => restore_ownership k o b
+  | HRestoreRemoved k o before slot => restore_ownership k o before slot false b
+  | HRestoreSwapped k o before => restore_ownership k o before O true b
   | HRemoveRule c r => Some (with_conns b (rules_del (b_conns b) c r))
   | HCancelPending p =>
       if existsb (pend_eqb p) (b_pending b) then Some (with_pending b (remove_first (pend_eqb p) (b_pending b)))
@@ -264,7 +295,7 @@ Definition cancel_hook (h : hook) (b : bus) : option bus :=
 (* what bus_transaction_execute_and_free does for one hook (free function only) *)
 Definition free_hook (h : hook) (b : bus) : bus :=
   match h with
-  | HRestoreRemoved k o => with_conns b (own_del (b_conns b) (o_conn o) k)   (* last unref: bus_connection_remove_owned_service *)
+  | HRestoreRemoved k o _ _ => with_conns b (own_del (b_conns b) (o_conn o) k)   (* last unref: bus_connection_remove_owned_service *)
   | _ => b
   end.
 
